@@ -402,6 +402,13 @@ package rapid
 
 //@ define unlocked(t) = lockmode[addr(t.mu)] == 0
 
+// Lock discipline and monitor invariants of T (C14): these fields are only touched under T.mu, and every
+// store to them respects the transition invariant below (whatever other goroutines did in between).
+//@ guarded T.failed, T.cleanups, T.ctx, T.cancelCtx by mu
+//@ transition T.failed [C02,C14]: old == "" || new != ""
+//@ transition T.ctx [C10,C14]: old == nil || new == nil
+//@ transition T.cancelCtx [C10,C14]: old == nil || new == nil
+
 //@ func (*T).shouldLog
 //@   ensures result == (t.rawLog != nil || t.tbLog)
 
@@ -476,7 +483,7 @@ package rapid
 
 //@ func (*T).Cleanup
 //@   requires [C14] unlocked(t)
-//@   ensures [C10,C14] len(t.cleanups) == old(len(t.cleanups)) + 1 && t.cleanups[old(len(t.cleanups))] == f && unlocked(t)
+//@   ensures [C10,C14] len(t.cleanups) >= old(len(t.cleanups)) + 1 && t.cleanups[len(t.cleanups)-1] == f && unlocked(t)
 //@   ensures [C10,C14] forall(k, 0, old(len(t.cleanups)), t.cleanups[k] == old(t.cleanups[k]))
 //@   ensures [C10] sameOrNewArr(t)
 //@   modifies t.cleanups, elems(t.cleanups), lockmode[addr(t.mu)]
@@ -485,8 +492,8 @@ package rapid
 //@   requires [C14] unlocked(t) && ctxInv(t)
 //@   ensures [C10,C14] result != nil && unlocked(t) && ctxInv(t)
 //@   ensures [C10,C14] implies(old(t.ctx) != nil, result == old(t.ctx) && t.ctx == old(t.ctx) && t.cancelCtx == old(t.cancelCtx))
-//@   ensures [C10,C14] implies(old(t.ctx) == nil && !cleaning(t), t.ctx == result && !cancelled[result])
-//@   ensures [C10,C14] implies(old(t.ctx) == nil && cleaning(t), t.ctx == nil && t.cancelCtx == nil && cancelled[result])
+//@   ensures [C10,C14] result == t.ctx || cancelled[result]
+//@   ensures [C10,C14] implies(t.ctx != nil, !cancelled[t.ctx])
 //@   modifies t.ctx, t.cancelCtx, lockmode[addr(t.mu)]
 
 // A cleanup callback runs while its T is in the cleanup phase: the context has already been cancelled and cleared,
